@@ -187,6 +187,7 @@ struct World {
     int path_shape;             // how the program names its file (see World::open_path)
     bool via_symlink;           // the program names the file through a symbolic link (path shapes are part of the environment)
     std::string open_path();    // the name under which the current file is opened
+    std::string shaped(const std::string &p);
     bool threaded_run;          // some operations of this run are issued from a second caller thread (started and joined per operation)
     bool ghosts_allowed;        // keep handles to deleted / still-live entities across operations (abuse, durable lanes)
 
